@@ -1,6 +1,7 @@
 SPEC = {
-    "lean_modules": ["AM.Props.C19"],
+    "lean_modules": ["AM.Props.Registry", "AM.Props.C19"],
     "theorems": [
+        "AM.Registry.targets_are_live_members", "AM.Registry.join_makes_member", "AM.Registry.leave_of_other_keeps_member", "AM.Registry.address_keyed_table_marks_live_peer_failed",
         "AM.ConnPool.borrow_alive", "AM.ConnPool.inv_send", "AM.ConnPool.recovers_after_one_failure", "AM.ConnPool.delivered_stays_delivered", "AM.ConnPool.stale_entry_never_recovers",
         "AM.Frame.decode_stream", "AM.Frame.le32_decode", "AM.Frame.split_frames_interleave_breaks",
         "AM.Gossip.broadcast_routed_once", "AM.Gossip.broadcast_conservation", "AM.Gossip.oversize_reaches_every_peer",
